@@ -227,6 +227,7 @@ def make_strategy():
 
 def to_case(v):
     (lang, toks), lseed, cseed = v
+    cseed = family.cfg_seed(cseed)
     rng = random.Random(lseed)
     src, r = layout.render(toks, rng, lang, dict(p_cmt=0.05, p_tab=0.0, p_multi=0.2, p_nl_slot=0.05))
     return family.Case(src.encode('utf-8'), lang, joint_cfg(random.Random(cseed)), {'kind': 'generated', 'layout_seed': lseed, 'cfg_seed': cseed})
@@ -234,8 +235,9 @@ def to_case(v):
 
 def main(ctx):
     quick = ctx.tier == 'quick'
-    rng = random.Random(core.subseed(ctx.seed, 'c19'))
+    rng = random.Random(core.subseed(ctx.useed, 'c19'))
     _EX.update(family.exclusions(ctx))
+    family.set_tier(ctx)
     reg = iarf_opts()
     ctx.rule = ('case = (source, language, assignment of ignore/add/remove/force to sp_ options); every recorded decision attributed to an option '
                 'is an evaluation of A, every located token pair one of B; non-trivial = a decision attributed to an option set to a non-default '
@@ -260,7 +262,7 @@ def main(ctx):
     # (b) joint assignments over the corpus
     nj = 3 if quick else 40
     for j in range(nj):
-        cd = joint_cfg(random.Random(core.subseed(ctx.seed, 'joint', j)))
+        cd = joint_cfg(random.Random(core.subseed(ctx.useed, 'joint', j)))
         for rel, lang in files:
             cases.append(family.Case(corpus.read(rel), lang, cd, {'kind': 'corpus-joint', 'file': rel, 'j': j}))
     raw = family.explore(ctx, judge, cases)
